@@ -8,7 +8,8 @@ TOKEN = -1   # the per-scenario copy of this file (written into the scenario dir
 
 
 class IBM:
-    def __init__(self, modules, kill=None, freeze=None, **kw):
+    def __init__(self, modules, kill=None, freeze=None, killfarm=None, **kw):
+        self.killfarm = {int(k): list(v) for k, v in (killfarm or {}).items()}
         self.m = modules
         self.kill = {int(k): list(v) for k, v in (kill or {}).items()}
         self.freeze = {int(k): list(v) for k, v in (freeze or {}).items()}
@@ -21,6 +22,8 @@ class IBM:
             st["age"] = st["age"] + 1
         for pid in self.kill.get(step, []):
             st["alive"][st.pid == pid] = False
+        for farm in self.killfarm.get(step, []):
+            st["alive"][st["farm"] == farm] = False
         for pid in self.freeze.get(step, []):
             st["active"][st.pid == pid] = False
         R.emit("ibm", step=step, pre=pre, post=R.snap(st), token=TOKEN)
